@@ -15,8 +15,8 @@
 //@ rewrite GUARD ".unwrap_or(false)" => ".unwrap_or_false()"
 //@ rewrite GUARD "Self::empty_leaf(prediction, depth)" => "TreeNodeV::empty_leaf(prediction, depth, Ghost(in_mask(mask.mask@)))"
 //@ extract ASSEMBLE from algorithms/linfa-trees/src/decision_trees/algorithm.rs anchor "let impurity_decrease = if let Some((_, _, best_score)) = best {" until "    /// Prune tree after fitting it"
-//@ rewrite ASSEMBLE "let parent_score = F::cast(parent_score);" => "/* F::cast(parent_score): f32 -> F, dropped */"
 //@ rewrite ASSEMBLE "parent_score - F::cast(best_score)" => "decrease_tok(parent_score, best_score)"
+//@ rewrite? ASSEMBLE "F::cast(" => "f_cast(   /* F::cast: f32 -> F, value kept */"
 //@ rewrite ASSEMBLE "F::zero()" => "DecTok::zero()"
 //@ rewrite ASSEMBLE "impurity_decrease < hyperparameters.min_impurity_decrease()" => "impurity_decrease.below_min_decrease(hyperparameters)"
 //@ rewrite ASSEMBLE "Self::empty_leaf(prediction, depth)" => "TreeNodeV::empty_leaf(prediction, depth, Ghost(in_mask(mask.mask@)))"
@@ -40,10 +40,10 @@ pub struct FTok { pub t: Ghost<VTerm> }
 impl FTok { pub fn zero() -> (r: FTok) ensures r.t@ == VTerm::Zero { FTok { t: Ghost(VTerm::Zero) } } }
 pub struct LabelTok { pub l: Ghost<int> }
 #[derive(Clone, Copy)]
-pub struct ImpTok { pub of: Ghost<ISet<int>> }
+pub struct ImpTok { pub of: Ghost<ISet<int>>, pub crit: Ghost<int> }           // impurity of a sample set under a criterion (0 = Gini, 1 = entropy)
 #[derive(Clone, Copy)]
 pub struct ScoreTok { pub id: Ghost<int> }
-pub enum DTerm { Zero, Diff(ISet<int>, int) }                  // parent impurity (of a sample set) minus the best split score
+pub enum DTerm { Zero, Diff(ISet<int>, int, int) }             // parent impurity (of a sample set, under a criterion) minus the best split score
 #[derive(Clone, Copy)]
 pub struct DecTok { pub d: Ghost<DTerm> }
 pub enum SplitQuality { Gini, Entropy }
@@ -118,11 +118,13 @@ impl DecTok {
     pub fn below_min_decrease(&self, h: &ParamsV) -> (r: bool) ensures r == spec_below_min_decrease(self.d@) { unimplemented!() }
 }
 #[verifier::external_body]
-pub fn gini_impurity(f: &FreqTok) -> (r: ImpTok) ensures r.of@ == f.set@ { unimplemented!() }
+pub fn gini_impurity(f: &FreqTok) -> (r: ImpTok) ensures r.of@ == f.set@, r.crit@ == 0 { unimplemented!() }
 #[verifier::external_body]
-pub fn entropy(f: &FreqTok) -> (r: ImpTok) ensures r.of@ == f.set@ { unimplemented!() }
+pub fn entropy(f: &FreqTok) -> (r: ImpTok) ensures r.of@ == f.set@, r.crit@ == 1 { unimplemented!() }
+pub fn f_cast<T>(x: T) -> (r: T) ensures r == x { x }
+pub open spec fn crit_of(q: SplitQuality) -> int { match q { SplitQuality::Gini => 0, SplitQuality::Entropy => 1 } }
 #[verifier::external_body]
-pub fn decrease_tok(parent: ImpTok, best: ScoreTok) -> (r: DecTok) ensures r.d@ == DTerm::Diff(parent.of@, best.id@) { unimplemented!() }
+pub fn decrease_tok(parent: ImpTok, best: ScoreTok) -> (r: DecTok) ensures r.d@ == DTerm::Diff(parent.of@, parent.crit@, best.id@) { unimplemented!() }
 #[verifier::external_body]
 pub fn next_depth(d: usize) -> (r: usize) ensures r == d + 1 { unimplemented!() }            // `depth + 1` (assumed not to overflow)
 impl DataV {
@@ -168,7 +170,7 @@ pub fn fit_node(data: &DataV, mask: &RowMask, hyperparameters: &ParamsV, sorted_
         // a split node was reached by at least min_weight_split samples, reports parent impurity minus the best score, at least min_impurity_decrease
         &&& !node.leaf_node ==> !spec_below_min_weight_split(mask.nsamples as int) && best.is_some()
               && node.feature_idx == best.unwrap().0 && node.split_value.t@ == best.unwrap().1.t@
-              && node.impurity_decrease.d@ == DTerm::Diff(in_mask(mask.mask@), best.unwrap().2.id@)
+              && node.impurity_decrease.d@ == DTerm::Diff(in_mask(mask.mask@), crit_of(hyperparameters.q), best.unwrap().2.id@)    // impurity of THIS node's samples under the CHOSEN criterion
               && !spec_below_min_decrease(node.impurity_decrease.d@)
         // children are fitted one level deeper on the two parts of this node's samples, `value <= threshold` going LEFT (ties included)
         &&& node.left_child.is_some() ==> node.left_child.unwrap().depth == depth + 1
